@@ -33,6 +33,8 @@ pub struct Scripted {
     pub stop_at_depth: Option<u32>,
     /// abort the run when nodes exceed this
     pub node_cap: u64,
+    /// set when the run was aborted by the node cap (as opposed to the depth line)
+    pub capped: bool,
 }
 
 pub struct ScriptedStop;
@@ -171,6 +173,7 @@ pub fn work(n: u64) {
         Ctx::Scripted(s) => {
             s.nodes += n;
             if s.nodes > s.node_cap {
+                s.capped = true;
                 std::panic::resume_unwind(Box::new(ScriptedStop));
             }
         }
